@@ -1,4 +1,4 @@
 (* extraction of the C19 model: ExtrOcamlBasic only, no directives of our own *)
 From Coq Require Import ExtrOcamlBasic.
-From V Require Import IeeeSoft.
-Extraction "c19_model.ml" run_encode run_encode_exact run_decode spec_encode use_C_ieee754 check_compliance fmt32 fmt64.
+From V Require Import IeeeSoft Fm94 IeeeCol.
+Extraction "c19_model.ml" run_encode run_encode_exact run_decode spec_encode use_C_ieee754 check_compliance fmt32 fmt64 ieee_col_enc ieee_col_dec_range bits_to_bytes bytes_to_bits.
